@@ -13,8 +13,9 @@ marrow arrays of build k.  Here the builder model is plugged in (`BuildCore.hist
                              `to_marrow(fields, batch k)` — the rows added since the previous build, whichever finishers
                              were called before (`to_record_batch`: under the fields of the schema the builder was created
                              with).  No hypothesis on schema or rows.
-  builder_reuse_decodes      with `SchemaOKF` and `coveredF` of the fields, `noRaw` rows in EVERY operation (`OpsOK noRaw`: the
-                             hypotheses of `C10_histories` narrowed to rows without raw key / value streams; no `Safe`) and
+  builder_reuse_decodes      with the hypotheses of `C10_histories` — `SchemaOKF` and `coveredF` of the fields, alternating raw
+                             key / value streams in EVERY operation (`OpsOK structStreamsAlternate`), `OpsOK noRaw` OR the
+                             sentinel bound `narrowRoot`; no `Safe` — and
                              `hA`/`hB` (a converted array means what the marrow array means): the arrays of an arrow / arrow2
                              build and the columns of a record batch decode, column by column, to the documented values of
                              batch k.
@@ -135,9 +136,10 @@ theorem builder_reuse_one_shot (ext : Ext) (dn : List Field → List Arr → R D
       refine ⟨couts[k].2, hone, hk k f couts[k].2 hf ?_⟩
       simp [List.getElem?_map, List.getElem?_eq_getElem hk2]
 
-/-- … and what the arrays mean: under `hschema` (`SchemaOKF`), `hcov` (`coveredF`) and `hraw` (`OpsOK noRaw`: no raw key / value
-calls in ANY operation — `C10.C10_histories` itself asks only `structStreamsAlternate` and `noRaw ∨ narrowRoot`; NO `Safe`
-hypothesis — `Props.C01.C01_build_decode'`, the hidden-rows refinement) and `hA` / `hB` (a converted array decodes to what the marrow array decodes to — the hypotheses of
+/-- … and what the arrays mean: under the hypotheses of `C10.C10_histories` — `hschema` (`SchemaOKF`), `hcov` (`coveredF`),
+`hraw` (`OpsOK structStreamsAlternate`: the raw key / value call streams of every record of every operation alternate) and
+`hnar` (no raw stream in ANY operation, or the sentinel bound `narrowRoot`); NO `Safe`
+hypothesis — `Props.C01.C01_build_decode'`, the hidden-rows refinement — and `hA` / `hB` (a converted array decodes to what the marrow array decodes to — the hypotheses of
 `backends_agree`, validated by the `backend` suite), the arrays of build k — marrow's, arrow's, arrow2's, the columns of a
 record batch — decode, column by column, to the documented values of the records of batch k. -/
 theorem builder_reuse_decodes (ext : Ext) (dn : List Field → List Arr → R D) (de : D → R Out)
@@ -147,7 +149,8 @@ theorem builder_reuse_decodes (ext : Ext) (dn : List Field → List Arr → R D)
     (hB : ∀ a ba, cvB.arrayOfMarrow a = .ok ba → decodeB ba = Spec.decodeAll a)
     (fields : List Field) (self : ArrayBuilder B) (h0 : ArrayBuilder.new (histCore ext dn de) fields = .ok self)
     (hschema : ∀ f ∈ fields, Lemmas.C03.SchemaOKF f) (hcov : fields.all Build.coveredF = true)
-    (ops : List (HOp Add)) (hraw : C10.OpsOK (fun x => noRaw x = true) (ops.map toOp))
+    (ops : List (HOp Add)) (hraw : C10.OpsOK (fun x => structStreamsAlternate x = true) (ops.map toOp))
+    (hnar : C10.OpsOK (fun x => noRaw x = true) (ops.map toOp) ∨ narrowRoot fields = true)
     (outs : List (R (Built AF AA BA))) (fin : ArrayBuilder B)
     (h : runHistory (histCore ext dn de) cvA cvB validate self ops = .ok (outs, fin))
     (k : Nat) (rows : List SVal) (hrows : (C10.batchesFrom [] (ops.map toOp))[k]? = some rows)
@@ -177,13 +180,14 @@ theorem builder_reuse_decodes (ext : Ext) (dn : List Field → List Arr → R D)
     | ok r0 =>
       simp only [hr, Except.ok.injEq] at h0
       subst h0
-      have hrows_ok : ∀ x ∈ rows, noRaw x = true := by
-        have := C10.mem_batchesFrom (fun x => noRaw x = true) (ops.map toOp) [] (by simp) hraw rows
+      have hrows_ok : ∀ x ∈ rows, structStreamsAlternate x = true :=
+        C10.mem_batchesFrom (fun x => structStreamsAlternate x = true) (ops.map toOp) [] (by simp) hraw rows
           (List.mem_of_getElem? hrows)
-        exact this
+      have hnar' : (∀ x ∈ rows, noRaw x = true) ∨ narrowRoot fields = true :=
+        hnar.imp (fun hno => C10.mem_batchesFrom (fun x => noRaw x = true) (ops.map toOp) [] (by simp) hno rows
+          (List.mem_of_getElem? hrows)) id
       obtain ⟨hd1, cols, hd2, hd3, hd4, hd5⟩ :=
-        Props.C01.C01_build_decode' ext fields rows arrays hschema hcov (fun x hx => noRaw_ssa x (hrows_ok x hx))
-          (Or.inl hrows_ok) hone
+        Props.C01.C01_build_decode' ext fields rows arrays hschema hcov hrows_ok hnar' hone
       exact ⟨hd1, cols, hd2, hd3, hd4, hd5⟩
   refine ⟨arrays, hdec, ?_⟩
   cases hfk : (finishers ops)[k] with
@@ -278,8 +282,29 @@ example : ∀ outs fin, runHistory exCore Conv.id Conv.id exValidate { builder :
   obtain ⟨arrays, hd, _⟩ := builder_reuse_decodes {} _ _ Conv.id Conv.id exValidate Spec.decodeAll Spec.decodeAll
     (by intro a aa h; cases h; rfl) (by intro a aa h; cases h; rfl) exFields _ exBuilder
     (by simp [exFields, Lemmas.C03.SchemaOKF, Lemmas.C03.SchemaOK]) (by decide) exHistory
-    (by unfold OpsOK; decide) outs fin h 2 [exRec "z" [], .record "R" (.cons "d" 0 (.str "z") .nil)] (by decide) b hb
+    (by unfold OpsOK; decide) (Or.inl (by unfold OpsOK; decide)) outs fin h 2
+    [exRec "z" [], .record "R" (.cons "d" 0 (.str "z") .nil)] (by decide) b hb
   exact ⟨arrays, hd⟩
+
+/-- a history the former hypothesis `OpsOK noRaw` excluded: one record arrives as an ALTERNATING raw `SerializeMap` call
+stream (key, value, key, value), the build goes through `to_arrow` -/
+def exRawRec : SVal := .mapRaw (.key (.str "d") (.value (.str "x") (.key (.str "l") (.value .none .nil))))
+def exRawHistory : List (HOp Add) := [.add (.push exRawRec), .add (.push (exRec "y" [4])), .finish .arrow]
+
+example : noRaw exRawRec = false ∧
+    (runHistory exCore Conv.id Conv.id exValidate { builder := exRoot0, schema := exFields } exRawHistory).isOk = true :=
+  ⟨by decide, by decide +kernel⟩
+
+/-- `builder_reuse_decodes` applies to it (through `narrowRoot`): the arrow arrays of its build decode to the documented
+values of both records -/
+example : ∀ outs fin, runHistory exCore Conv.id Conv.id exValidate { builder := exRoot0, schema := exFields } exRawHistory =
+      .ok (outs, fin) → ∀ as, outs[0]? = some (.ok (.arrow as)) →
+    ∃ arrays, DecodesTo {} exFields arrays [exRawRec, exRec "y" [4]] ∧ as.map Spec.decodeAll = arrays.map Spec.decodeAll := by
+  intro outs fin h as hb
+  exact builder_reuse_decodes {} _ _ Conv.id Conv.id exValidate Spec.decodeAll Spec.decodeAll
+    (by intro a aa h; cases h; rfl) (by intro a aa h; cases h; rfl) exFields _ exBuilder
+    (by simp [exFields, Lemmas.C03.SchemaOKF, Lemmas.C03.SchemaOK]) (by decide) exRawHistory
+    (by unfold OpsOK; decide) (Or.inr (by decide)) outs fin h 0 [exRawRec, exRec "y" [4]] (by decide) (.arrow as) hb
 
 end examples
 
